@@ -774,8 +774,9 @@ func ratFloorNs(r *big.Rat) int64 {
 // Generators
 
 var ttmlTextOpts = textOpts{
-	extra: []string{"&amp;", "&lt;", "<br/>", "<span>", "</p>", "&", "<", ">", "\"", "'", "]]>", "<!--", "&#10;", "a<b", "\t"},
-	nbsp:  true,
+	extra:    []string{"&amp;", "&lt;", "<br/>", "<span>", "</p>", "&", "<", ">", "\"", "'", "]]>", "<!--", "&#10;", "a<b", "\t", "\ufffd", "\ufffc\ue000", "\U0001F600"},
+	nbsp:     true,
+	replChar: true,
 }
 
 func genAttrs(t *rapid.T, label string, max int) map[string]string {
